@@ -4,14 +4,18 @@
    Proved here (for EVERY sequence of Metrics calls, not only those of a loop nest):
      C16_flush, C16_consumable, C16_header;  and for every case of the nest model
      C16_model_flush_consumable, C16_model_header;  C16_intersect_rows for the `&` generator.
+   Round 2: C16_trace_is_emits, C16_level_spec (induction step for any level kind),
+     C16_plain_nest_spec / C16_plain_nest (stamps, loop order and addressing for every nest of
+     eager `for` levels).
    NOT proved (checked by the oracle c16_holds on the implementation's files and, as verdict
-   bit 4, on the model's files for every generated case):
-     - stamps lexicographically non-decreasing / strictly increasing for `iter`;
-     - addressing (coordinates and positions equal the reference iteration space);
-     see the comment at C16_model_meets_spec_partial for the full statements. *)
+   bit 4, on the model's files for every generated case): the hypotheses of C16_level_spec for
+   `&` levels (yielded elements = lookup intersection, locality of its events) and for `<<`
+   levels (populate generator incl. its saved-stamp rows), hence C16_model_meets_spec itself;
+   see the comment at C16_model_meets_spec for the full statements. *)
 From Coq Require Import ZArith List Bool.
 From FT Require Import Model.Base Model.Obs Model.C16Metrics Model.C16Nest Model.C16Check
-                       Proofs.C16MetricsP Proofs.C16CheckP Proofs.C16AndP.
+                       Proofs.C16MetricsP Proofs.C16CheckP Proofs.C16AndP
+                       Proofs.C16CoreP Proofs.C16RefP Proofs.C16NestP Proofs.C16PlainP.
 Import ListNotations.
 Open Scope Z_scope.
 
@@ -87,6 +91,67 @@ Example C16_intersect_rows_nonvacuous :
   uses 0 (all_events (and_go 0 0 1 true true [(1, Leaf 1); (5, Leaf 1); (9, Leaf 1)]
                              [(3, Leaf 1)] 0 0 [])) = [(1, 0); (5, 1)].
 Proof. vm_compute. reflexivity. Qed.
+
+(* ---------------------------------------------------------------------------------------------
+   Round 2: stamps, loop order and addressing, proved from an invariant on the counter vector.
+
+   C16_trace_is_emits: the file of a registered trace is exactly the rows [emits] appends, a
+   function of the event list and of (loop_order, iteration, point, saved copies) only.  *)
+Theorem C16_trace_is_emits : forall keys m n evs k, In k keys ->
+  content (exec n (init_state keys true m) evs) k = Some (emits n (init_state keys true m) evs k).
+Proof. exact content_is_emits. Qed.
+Print Assumptions C16_trace_is_emits.
+
+(* C16_level_spec (the induction step for ANY `for` level, eager, `&` or `<<`): a traversal of
+   level i whose events are  registerRank; per element [generator events; iter row; body;
+   incIter; generator events]; generator events; endIter  with generator events local to rank i
+   and bodies that meet [spec] one level down, meets [spec] at level i, i.e. from a state whose
+   counter vector is  P ++ 0...0  and loop_order = 0..k-1:
+     - the counter vector is restored and loop_order = 0..k'-1 with k' = max k (i + levels entered);
+     - every trace of an outer rank is untouched, every trace of rank j >= i receives its header
+       when j is first registered and then rows that extend P, have width 2(j+1)+1, are
+       lexicographically ordered (strictly for iter) and - for the kinds in [addr_scope] - have
+       coordinates/positions equal to the reference space below the current point;
+   provided the level's own (counter value, coordinate, position) sequence [ltrace] is ordered
+   and addressed ([loc_ok]).  The invariant used: incIter only raises the innermost component in
+   use, endIter resets it after its last row, bodies restore the vector (outer components
+   constant during an inner traversal). *)
+Theorem C16_level_spec : forall n i L lv' pt e items fin, length pt = i ->
+  Forall (item_ok n i lv' pt) items -> Forall (local i) fin ->
+  children pt items = kids L (pt, e) ->
+  lsafe (0, None) (skels i items ++ fin) = true ->
+  loc_ok L pt e (skels i items ++ fin) ->
+  spec n i (L :: lv') pt e
+       ([EReg (Z.of_nat i)] ++ flat_items (Z.of_nat i) items ++ fin ++ [EEnd (Z.of_nat i)]).
+Proof. exact GL. Qed.
+Print Assumptions C16_level_spec.
+
+(* C16_plain_nest_spec: every nest of `for c, p in <eager fiber>` levels - any depth, any operand
+   trees (explicit defaults and empty sub-fibers included), any traces - meets [spec]. *)
+Theorem C16_plain_nest_spec : forall n tr zshape nz m lv, forallb plain_level lv = true ->
+  forall i pt e z, length pt = i -> spec n i lv pt e (fst (run tr zshape nz m lv i pt e z)).
+Proof. exact plain_nest_spec. Qed.
+Print Assumptions C16_plain_nest_spec.
+
+(* ... read at the top of a session: loop_order = 0..d-1 (d = levels entered) and every file is
+   [header iff its rank was reached] ++ rows that are stamp-ordered (strictly for iter) and equal
+   to the reference iteration space with storage positions. *)
+Theorem C16_plain_nest : forall n tr zshape nz m lv keys m0 e z,
+  forallb plain_level lv = true ->
+  let evs := fst (run tr zshape nz m lv 0 [] e z) in
+  let st' := exec n (init_state keys true m0) evs in
+  let d := dr lv [([], e)] in
+  m_lo st' = iota d
+  /\ forall kk, In kk keys -> exists data,
+       content st' kk = Some (hdrs kk 0 d ++ data) /\ rows_ok 0 [] lv [] e kk data.
+Proof. exact plain_nest_top. Qed.
+Print Assumptions C16_plain_nest.
+
+Example C16_plain_nest_nonvacuous :
+  forallb plain_level [ {| l_pop := false; l_src := SFib 0 |}; {| l_pop := false; l_src := SFib 0 |} ] = true
+  /\ dr [ {| l_pop := false; l_src := SFib 0 |}; {| l_pop := false; l_src := SFib 0 |} ]
+        [([], [Node [(1, Node [(0, Leaf 0); (2, Leaf 5)])]])] = 2%nat.
+Proof. vm_compute. auto. Qed.
 
 (* C16_model_meets_spec, full statement (NOT proved):
      forall c, c16_wf c = true -> c16_region c = 0 -> c16_holds c (c16_model c) = true
